@@ -43,6 +43,8 @@ impl<'a, 'b> GeneratorState<'a> {
                                 .compiler_state
                                 .syntax_error("Code too complex for the compiler", pos));
                         }
+                        // A is saved: the condition can use it (and must not save it again)
+                        self.acc_in_use = false;
                         self.local_label_counter_if += 1;
                         let ifend_label = format!(".ifend{}", self.local_label_counter_if);
                         let else_label = format!(".else{}", self.local_label_counter_if);
@@ -58,6 +60,7 @@ impl<'a, 'b> GeneratorState<'a> {
                         self.asm(STA, &ExprType::Tmp(false), pos, false)?;
                         self.tmp_in_use = true;
                         self.sasm(PLA)?;
+                        self.acc_in_use = true;
                         if la != ra {
                             return Err(self.compiler_state.syntax_error(
                                 "Different alternative types in ?: expression",
@@ -122,6 +125,8 @@ impl<'a, 'b> GeneratorState<'a> {
                     .compiler_state
                     .syntax_error("Code too complex for the compiler", pos));
             }
+            // A is saved: the condition can use it (and must not save it again)
+            self.acc_in_use = false;
             self.local_label_counter_if += 1;
             let ifend_label = format!(".ifend{}", self.local_label_counter_if);
             let else_label = format!(".else{}", self.local_label_counter_if);
@@ -134,6 +139,7 @@ impl<'a, 'b> GeneratorState<'a> {
             self.asm(STA, &ExprType::Tmp(false), pos, false)?;
             self.tmp_in_use = true;
             self.sasm(PLA)?;
+            self.acc_in_use = true;
             Ok(ExprType::Tmp(false))
         } else {
             self.local_label_counter_if += 1;
